@@ -107,6 +107,29 @@ def main(tier):
                 execs.append(execution("dconv --zone " + name, ins, out, singles))
                 out, singles = run_all_one(dconv, ["--from-zone", name, "-f", "%FT%T"], ins, "stdin")
                 execs.append(execution("dconv --from-zone " + name, ins, out, singles))
+        # the coordinated scales TAI and GPS answer from the leap-second table: representatives of its stretches in every order, with the
+        # last second before each inserted one (the table's own key) among them
+        import re as _re, datetime as _dt
+        ltab = [int(a) for a, _ in _re.findall(r"<<(\d+), (\d+)>>", open(core.SPEC + "/LeapTab.tla").read())]
+        pick = sorted(set([1, 2, len(ltab) - 1] + ([len(ltab) // 2] if quick else list(range(1, len(ltab))))))
+        for zname in ("TAI", "GPS"):
+            for i in pick:
+                d = ltab[i]
+                if zname == "GPS" and d * 86400 < 315964800 + 86400 * 400:
+                    continue
+                reps = [(ltab[i - 1] * 86400 + d * 86400) // 2, d * 86400 - 1, d * 86400, d * 86400 + 86400 * 30, ltab[-1] * 86400 + 86400 * 500]
+                perms = list(itertools.permutations(reps, 3))
+                rng.shuffle(perms)
+                perms = [pm for pm in perms if reps[1] in pm][: 4 if quick else 12] + perms[: 2 if quick else 6]
+                for pm in perms:
+                    ins = [(_dt.datetime(1970, 1, 1) + _dt.timedelta(seconds=x)).strftime("%Y-%m-%dT%H:%M:%S") for x in pm]
+                    for mode in ("args", "stdin"):
+                        out, singles = run_all_one(dconv, ["--zone", zname, "-f", "%FT%T"], ins, mode)
+                        execs.append(execution("dconv --zone " + zname + " (" + mode + ")", ins, out, singles))
+                    out, singles = run_all_one(dconv, ["--from-zone", zname, "-f", "%FT%T"], ins, "stdin")
+                    execs.append(execution("dconv --from-zone " + zname, ins, out, singles))
+                    out, singles = run_all_one(dzone, [zname], ins, "args")
+                    execs.append(execution("dzone " + zname, ins, out, singles))
         # value mixes for the line-oriented tools
         ch = chainmod.Chain()
         days = [ch.fmtF(l) for l in chainmod.boundary_ldns(rng, width=2)[::9]]
